@@ -830,6 +830,9 @@ func judgeRun(s hshape, pre hstate, o hobs, st *hstate, c02 c02mode) hverdict {
 						readable = false
 					}
 				}
+				if readable && o.Op.Force {
+					bad("C14", "force-runs-everything", "a forced run in which nothing is set up to fail stopped with an error before running anything (task %s never started): %s", name, core.Trunc(o.Err, 300))
+				}
 				if strict && readable && !o.Op.Force && snap != noFiles && last == snap && pre.LastFail[name] == "" {
 					bad("C02", "unchanged-task-skipped", "task %s is up to date (inputs {%s} are those of its last success) but spok stopped with an error instead of skipping it: %s", name, snap, core.Trunc(o.Err, 300))
 				}
